@@ -136,6 +136,69 @@ def spacing_rewrites(tree):
                 yield ("spacing:removed@", base[:i + 1] + base[i + 2:])
 
 
+def text_spacing_rewrites(text):
+    """Spacing rewrites of an arbitrary (possibly malformed) text: blanks only ever next to delimiters."""
+    seen = {text}
+    for i, ch in enumerate(text):
+        if ch in ",()":
+            for cand in (text[:i] + " " + text[i:], text[:i + 1] + " " + text[i + 1:],
+                         text[:i] + "  " + text[i:], text[:i + 1] + "  " + text[i + 1:]):
+                if cand not in seen:
+                    seen.add(cand)
+                    yield ("spacing:malformed:insert@", cand)
+        if ch == " " and ((i > 0 and text[i - 1] in ",() ") or (i + 1 < len(text) and text[i + 1] in ",() ")):
+            cand = text[:i] + text[i + 1:]
+            if cand not in seen:
+                seen.add(cand)
+                yield ("spacing:malformed:remove@", cand)
+    for cand in (text.replace(", ", ","), text.replace(",", " , "), text.replace("(", "( ").replace(")", " )"),
+                 " " + text + "  "):
+        if cand not in seen:
+            seen.add(cand)
+            yield ("spacing:malformed:style", cand)
+
+
+def worker_malformed(rec, shard, nshards, setups, bounds, seed):
+    """Delimiter-faulted texts (the C01 delimiter mutations of every small valid tree) under every spacing rewrite."""
+    n, g, d = bounds
+    for st in setups:
+        pool = [Leaf(t) for t in st.plain3[:2]]
+        bases = []
+        seen = set()
+        for shp in hedgen.shapes(n, g, d):
+            for tree in hedgen.fill(shp, pool):
+                if hedgen.has_duplicate(tree):
+                    continue
+                for kind, mt in c01.delimiter_mutations(render(tree)):
+                    if mt not in seen:
+                        seen.add(mt)
+                        bases.append((kind, mt))
+        for bi in core.shard_order(len(bases), shard, nshards, seed):
+            kind, text = bases[bi]
+            try:
+                base = codes_of(st, text)
+            except Exception as e:
+                rec.violation("C04:raises:" + type(e).__name__, schema=st.label, text=text, error=repr(e)[:200])
+                continue
+            rec.n("evaluations")
+            rec.state((st.label, "malformed", text))
+            rec.outcome("base:" + "+".join(sorted(set(base))))
+            for rk, rtext in text_spacing_rewrites(text):
+                rec.n("evaluations")
+                rec.n("transitions")
+                rec.n("distinct_nontrivial")
+                try:
+                    got = codes_of(st, rtext)
+                except Exception as e:
+                    rec.violation("C04:raises:" + type(e).__name__, schema=st.label, text=rtext, error=repr(e)[:200])
+                    continue
+                if got != base:
+                    rec.violation(fingerprint(rk + ":" + kind, base, got), schema=st.label, kind=rk, fault=kind,
+                                  original=text, rewrite=rtext, codes_original=base, codes_rewrite=got)
+            if bi % 997 == 1:
+                rec.sample({"schema": st.label, "malformed": text, "fault": kind, "codes": base})
+
+
 def permuted(tree, path, perm):
     def rec(items, prefix):
         out = [it if isinstance(it, Leaf) else rec(it, prefix + (i,)) for i, it in enumerate(items)]
@@ -315,6 +378,7 @@ def run(ctx):
                                "dup_family": "G<=3 leaves depth<=2, 0-2 extra siblings, all arrangements, top+nested"}
     ctx.parallel(worker_trees, setups, bounds, ctx.seed)
     ctx.parallel(worker_dups, setups, ctx.thorough, ctx.seed)
+    ctx.parallel(worker_malformed, setups, ctx.pick((2, 2, 2), (3, 2, 2)), ctx.seed)
     ctx.rec.counts["states"] = len(ctx.rec.states)
 
 
